@@ -1,14 +1,17 @@
 #!/bin/bash
 # Re-runs the property's quick check against every stored seeded change (scratch worktree of /repo HEAD + patch) and
-# prints one line per change; used after any change to the checks to make sure no detection was lost.
+# prints one line per change; used after any change to the checks (or a fix: commit in /repo) to make sure no detection was lost.
+# usage: tools/seed_reval_all.sh [parallel jobs (default 4)] [name pattern (default *)]
 cd /verif
-for d in seeded/*/; do
-  name=$(basename $d); pid=${name%%_*}
+one() {
+  d=$1; name=$(basename $d); pid=${name%%_*}
   wt=/tmp/reval_${name}_$$
-  git -C /repo worktree add -q --detach $wt HEAD || continue
-  ( cd $wt && (git apply $OLDPWD/$d/patch.diff 2>/dev/null || git apply --3way $OLDPWD/$d/patch.diff 2>/dev/null || patch -p1 -s -F3 < $OLDPWD/$d/patch.diff) ) || { echo "$name PATCH-FAILED"; git -C /repo worktree remove --force $wt; continue; }
-  VERIF_REPO=$wt VERIF_EVIDENCE_DIR=/tmp/reval_ev_$$ VERIF_REPLAY_DIR=/tmp/reval_ev_$$ timeout 3000 ./check $pid quick > /tmp/reval_out_$$ 2>&1; rc=$?
-  echo "$name rc=$rc $(grep -m1 -E 'violation' /tmp/reval_out_$$ | cut -c1-120)"
+  git -C /repo worktree add -q --detach $wt HEAD || return
+  ( cd $wt && (git apply /verif/$d/patch.diff 2>/dev/null || patch -p1 -s -F3 < /verif/$d/patch.diff >/dev/null 2>&1) ) || { echo "$name PATCH-FAILED"; git -C /repo worktree remove --force $wt; return; }
+  VERIF_REPO=$wt VERIF_EVIDENCE_DIR=/tmp/reval_ev_${name}_$$ VERIF_REPLAY_DIR=/tmp/reval_ev_${name}_$$ timeout 3000 ./check $pid quick > /tmp/reval_out_${name}_$$ 2>&1; rc=$?
+  echo "$name rc=$rc $(grep -m1 -E 'violation' /tmp/reval_out_${name}_$$ | cut -c1-120)"
   git -C /repo worktree remove --force $wt
-done
-rm -rf /tmp/reval_ev_$$ /tmp/reval_out_$$
+  rm -rf /tmp/reval_ev_${name}_$$ /tmp/reval_out_${name}_$$
+}
+export -f one
+ls -d seeded/${2:-*}/ | xargs -P ${1:-4} -I{} bash -c 'one {}'
